@@ -202,6 +202,38 @@ func cmdFilter(args []string) *Result {
 				}
 			}
 		})
+		// (D) directed: a tag, comment, declaration, processing instruction or CDATA section left open at the end of one raw
+		// line and closed (or not) by later lines that may hold no '<' at all, followed by a line with rejected tags - the
+		// scanner's state is carried from line to line, whatever a line contains
+		openLines := []string{"<div", "<div class=\"a", "<!--", "<!-- c", "<!x", "<?p", "<![CDATA[", "<a b='", "<div\n<", "x"}
+		midLines := []string{"", "y", "class=\"a\">", "c -->", "x>", "?>", "]]>", "'>", "\">", ">", "--", "->", "z\">z"}
+		victimLines := []string{"<script>alert(1)</script>", "<STYLE>", "<title><xmp>"}
+		for _, head := range []string{"<div>\n", "> <div>\n> ", "<table>\n"} {
+			sep := "\n"
+			if strings.HasPrefix(head, ">") {
+				sep = "\n> "
+			}
+			for _, o := range openLines {
+				o = strings.ReplaceAll(o, "\n", sep)
+				for _, m1 := range midLines {
+					for _, m2 := range []string{"", midLines[2], midLines[3], midLines[9]} {
+						for vi, v := range victimLines {
+							if !thorough && (len(o)+len(m1)+len(m2)+vi)%2 == 1 {
+								continue
+							}
+							doc := head + o
+							if m1 != "" {
+								doc += sep + m1
+							}
+							if m2 != "" {
+								doc += sep + m2
+							}
+							emitLight([]byte(doc + sep + v + "\n"))
+						}
+					}
+				}
+			}
+		}
 		src.structured(thorough, func(d []byte) {
 			if bytes.IndexByte(d, '<') >= 0 {
 				emitLight(d)
